@@ -79,21 +79,83 @@ fn third(ty: u32, x: i64, y: i64) -> i64 {
     wrap(ty, x.wrapping_mul(7) ^ y.wrapping_mul(13).wrapping_add(5))
 }
 
+/// Scalar reference for a whole chunk.  The result is computed in i64 (no overflow for these operand
+/// sizes) and converted with an `as` cast, which Rust defines as reduction modulo 2^bits into the
+/// type's range -- the same function as `wrap`.  The op is matched outside the loop; every 4099th
+/// element is cross-checked against `ref_lane_op` (explicit `wrap`), which is the definition
+/// mirrored in SimdModel.v.
+fn ref_fill<T: IntElem>(op: u32, k: u32, xs: &[T], ys: &[T], zs: &[T], out: &mut [T]) {
+    macro_rules! fill {
+        (|$x:ident, $y:ident, $z:ident| $e:expr) => {
+            for i in 0..xs.len() {
+                let ($x, $y, $z) = (xs[i].to_i64(), ys[i].to_i64(), zs[i].to_i64());
+                let _ = ($y, $z);
+                out[i] = T::from_i64($e);
+            }
+        };
+    }
+    match op {
+        OP_ADD => fill!(|x, y, z| x + y),
+        OP_SUB => fill!(|x, y, z| x - y),
+        OP_MUL => fill!(|x, y, z| x * y),
+        OP_MULADD => fill!(|x, y, z| x * y + z),
+        OP_MIN => fill!(|x, y, z| x.min(y)),
+        OP_MAX => fill!(|x, y, z| x.max(y)),
+        OP_CLAMP => fill!(|x, y, z| x.max(y).min(z)),
+        OP_EQ => fill!(|x, y, z| (x == y) as i64),
+        OP_GE => fill!(|x, y, z| (x >= y) as i64),
+        OP_GT => fill!(|x, y, z| (x > y) as i64),
+        OP_LT => fill!(|x, y, z| (x < y) as i64),
+        OP_LE => fill!(|x, y, z| (x <= y) as i64),
+        OP_AND => fill!(|x, y, z| x & y),
+        OP_OR => fill!(|x, y, z| x | y),
+        OP_XOR => fill!(|x, y, z| x ^ y),
+        OP_NOT => fill!(|x, y, z| !x),
+        OP_SHL => fill!(|x, y, z| x << k),
+        OP_SHR => fill!(|x, y, z| x >> k),
+        OP_ABS => fill!(|x, y, z| x.abs()),
+        OP_NEG => fill!(|x, y, z| -x),
+        OP_SELECT => fill!(|x, y, z| if z > 0 { x } else { y }),
+        OP_SPLAT => fill!(|x, y, z| x),
+        _ => unreachable!(),
+    }
+    let mut i = 0;
+    while i < xs.len() {
+        let slow = ref_lane_op(T::TY, op, k, xs[i].to_i64(), ys[i].to_i64(), zs[i].to_i64());
+        assert!(out[i].to_i64() == slow, "harness bug: fast and explicit scalar references differ");
+        i += 4099;
+    }
+}
+
+/// Reusable buffers of a sweep (allocation and page faults dominated the run time otherwise).
+struct SweepBufs<T> {
+    exp: Vec<T>,
+    outs: Vec<Vec<T>>,
+}
+
 /// Judge one chunk of operands on all ISAs against the Rust scalar definition.
-fn sweep_chunk<T: IntElem>(op: u32, k: u32, xs: &[T], ys: &[T], zs: &[T], isas: &[&str], mism: &mut Option<(i64, i64, i64, Vec<i64>)>) {
-    let ty = T::TY;
-    let rs = run_lane_all::<T>(op, k, xs, ys, zs, isas);
-    let exp: Vec<T> = (0..xs.len()).map(|i| T::from_i64(ref_lane_op(ty, op, k, xs[i].to_i64(), ys[i].to_i64(), zs[i].to_i64()))).collect();
+fn sweep_chunk<T: IntElem>(op: u32, k: u32, xs: &[T], ys: &[T], zs: &[T], isas: &[&str], b: &mut SweepBufs<T>,
+                           mism: &mut Option<(i64, i64, i64, Vec<i64>)>) {
+    let n = xs.len();
+    b.exp.resize(n, T::default());
+    ref_fill::<T>(op, k, xs, ys, zs, &mut b.exp[..n]);
+    b.outs.resize(isas.len(), vec![]);
+    let mut ok: Vec<bool> = vec![];
+    for (j, isa) in isas.iter().enumerate() {
+        b.outs[j].resize(n, T::default());
+        let out = &mut b.outs[j][..n];
+        let r = std::panic::catch_unwind(std::panic::AssertUnwindSafe(|| T::run(isa, LaneArgs { op, k, x: xs, y: ys, z: zs, out })));
+        ok.push(matches!(r, Ok(Some(()))));
+    }
     if mism.is_some() {
         return;
     }
-    let all_ok = rs.iter().all(|r| r.as_ref().map_or(false, |v| v[..] == exp[..]));
-    if all_ok {
+    if (0..isas.len()).all(|j| ok[j] && b.outs[j][..n] == b.exp[..n]) {
         return;
     }
-    for i in 0..xs.len() {
-        let vals: Vec<i64> = rs.iter().map(|r| r.as_ref().map_or(PANIC_SENTINEL, |v| v[i].to_i64())).collect();
-        if vals.iter().any(|v| *v != exp[i].to_i64()) {
+    for i in 0..n {
+        let vals: Vec<i64> = (0..isas.len()).map(|j| if ok[j] { b.outs[j][i].to_i64() } else { PANIC_SENTINEL }).collect();
+        if vals.iter().any(|v| *v != b.exp[i].to_i64()) {
             *mism = Some((xs[i].to_i64(), ys[i].to_i64(), zs[i].to_i64(), vals));
             return;
         }
@@ -111,6 +173,7 @@ fn sweep_typed<T: IntElem>(op: u32, k: u32, mode: &str, seed: u64, n: u64) -> (u
     let mut xs: Vec<T> = Vec::with_capacity(CH);
     let mut ys: Vec<T> = Vec::with_capacity(CH);
     let mut zs: Vec<T> = Vec::with_capacity(CH);
+    let bufs = std::cell::RefCell::new(SweepBufs::<T> { exp: vec![], outs: vec![] });
     let flush = |xs: &mut Vec<T>, ys: &mut Vec<T>, zs: &mut Vec<T>, mism: &mut Option<_>, count: &mut u64| {
         if xs.is_empty() {
             return;
@@ -121,7 +184,7 @@ fn sweep_typed<T: IntElem>(op: u32, k: u32, mode: &str, seed: u64, n: u64) -> (u
             ys.push(T::default());
             zs.push(T::default());
         }
-        sweep_chunk::<T>(op, k, xs, ys, zs, &isas, mism);
+        sweep_chunk::<T>(op, k, xs, ys, zs, &isas, &mut bufs.borrow_mut(), mism);
         xs.clear();
         ys.clear();
         zs.clear();
@@ -139,20 +202,43 @@ fn sweep_typed<T: IntElem>(op: u32, k: u32, mode: &str, seed: u64, n: u64) -> (u
                 }
                 flush(&mut xs, &mut ys, &mut zs, &mut mism, &mut count);
             } else {
-                for x in lo..=hi {
-                    for y in lo..=hi {
-                        xs.push(T::from_i64(x));
-                        ys.push(T::from_i64(y));
-                        zs.push(T::from_i64(third(ty, x, y)));
-                        if xs.len() == CH {
-                            flush(&mut xs, &mut ys, &mut zs, &mut mism, &mut count);
+                // optional partition of the x range: `exh <part> <nparts>` (seed / n arguments reused)
+                let (part, nparts) = if n > 0 { (seed as i64, n as i64) } else { (0, 1) };
+                let span = hi - lo + 1;
+                let (xlo, xhi) = (lo + span * part / nparts, lo + span * (part + 1) / nparts - 1);
+                if bits == 16 {
+                    // one chunk per x: xs = splat(x), ys = every value (built once), zs = cheap mix of both
+                    let all: Vec<T> = (lo..=hi).map(T::from_i64).collect();
+                    let mut xv = vec![T::default(); all.len()];
+                    let mut zv = vec![T::default(); all.len()];
+                    for x in xlo..=xhi {
+                        let xt = T::from_i64(x);
+                        for i in 0..all.len() {
+                            xv[i] = xt;
+                            zv[i] = T::from_i64(x.wrapping_mul(7) ^ (all[i].to_i64().wrapping_mul(13) + 5));
+                        }
+                        count += all.len() as u64;
+                        sweep_chunk::<T>(op, k, &xv, &all, &zv, &isas, &mut bufs.borrow_mut(), &mut mism);
+                        if mism.is_some() {
+                            break;
                         }
                     }
-                    if mism.is_some() {
-                        break;
+                } else {
+                    for x in xlo..=xhi {
+                        for y in lo..=hi {
+                            xs.push(T::from_i64(x));
+                            ys.push(T::from_i64(y));
+                            zs.push(T::from_i64(third(ty, x, y)));
+                            if xs.len() == CH {
+                                flush(&mut xs, &mut ys, &mut zs, &mut mism, &mut count);
+                            }
+                        }
+                        if mism.is_some() {
+                            break;
+                        }
                     }
+                    flush(&mut xs, &mut ys, &mut zs, &mut mism, &mut count);
                 }
-                flush(&mut xs, &mut ys, &mut zs, &mut mism, &mut count);
             }
         }
         // boundary values x every value (both orders) + seeded random triples
@@ -606,8 +692,13 @@ fn generate(seed: u64, n: usize, tier: &str, out: &mut impl Write) {
                 if bits == 8 {
                     writeln!(out, "sweep {} {} {} exh", ty, op, k).unwrap();
                 } else if bits == 16 {
-                    if thorough || op_arity(op) == 1 {
+                    if op_arity(op) == 1 {
                         writeln!(out, "sweep {} {} {} exh", ty, op, k).unwrap();
+                    } else if thorough {
+                        // all 2^32 operand pairs, split into 8 x-ranges so that the lines spread over the cores
+                        for part in 0..8 {
+                            writeln!(out, "sweep {} {} {} exh {} 8", ty, op, k, part).unwrap();
+                        }
                     } else {
                         writeln!(out, "sweep {} {} {} strat {} {}", ty, op, k, seed, 1 << 18).unwrap();
                     }
